@@ -6,6 +6,7 @@ import (
 	"fmt"
 	"go/constant"
 	"go/types"
+	"sort"
 	"strings"
 
 	"golang.org/x/tools/go/ssa"
@@ -712,6 +713,33 @@ func (e *SEnv) evalCall(n *SCall) Val {
 			return specInt(Fresh("nevercalled", SInt))
 		}
 		return rec.rets[ri]
+	case "entrymem": // entrymem(): everything that existed at function entry still has its entry content
+		if e.old == nil {
+			sfail("entrymem() needs a two-state context")
+		}
+		var cs []Term
+		keys := make([]string, 0, len(e.st.heap))
+		for k := range e.st.heap {
+			keys = append(keys, k)
+		}
+		sort.Strings(keys)
+		for _, k := range keys {
+			now := e.st.heap[k]
+			info, ok := rawHeapInfo[k]
+			if !ok {
+				continue
+			}
+			was, had := e.old.heap[k]
+			if !had {
+				was = Sym(fmt.Sprintf("%s@%d", info.sym, e.old.epoch), info.sort)
+			}
+			if now.S == was.S {
+				continue
+			}
+			rv := BoundVar("r")
+			cs = append(cs, Forall([]Term{rv}, Implies(And(Le(Zero, rv), Le(rv, e.old.W)), Eq(Select(now, rv), Select(was, rv)))))
+		}
+		return specBool(And(cs...))
 	case "ipay": // identity of the object held by an interface value (its payload reference)
 		a := e.eval(n.Args[0])
 		if a.T == nil || !isIface(a.T) {
